@@ -141,6 +141,17 @@ fn digest_bytes(pos: &str) -> BytesDigest {
 fn leaf_statement(d: &Devs, pos: &str) -> [u64; 21] {
     let mut s = [0u64; 21];
     s[3] = 10;
+    if pos == "wide" {
+        // scalars that do not fit their u32 fields: the block number always, the asset id when it deviates
+        s[20] = 1u64 << 32;
+        if has(d, "asset") { s[0] = (1u64 << 32) + 7; }
+        if has(d, "out1") { s[1] = 5; }
+        if has(d, "out2") { s[2] = 5; }
+        if has(d, "exit1") { s[8..12].copy_from_slice(&digest_felts("first")); }
+        if has(d, "exit2") { s[12..16].copy_from_slice(&digest_felts("first")); }
+        if has(d, "block") { s[16..20].copy_from_slice(&digest_felts("last")); }
+        return s;
+    }
     if has(d, "asset") { s[0] = small(pos); }
     if has(d, "out1") { s[1] = small(pos); }
     if has(d, "out2") { s[2] = small(pos); }
